@@ -164,7 +164,7 @@ impl Batch {
             let mut s = String::new();
             writeln!(s, "From Coq Require Import List NArith ZArith String.").unwrap();
             writeln!(s, "From SNT Require Import {}.", self.coq_import).unwrap();
-            writeln!(s, "Import ListNotations.\nLocal Open Scope N_scope.").unwrap();
+            writeln!(s, "Import ListNotations.\nLocal Open Scope N_scope.\nSet Printing Width 1000000.").unwrap();
             s.push_str(&self.preamble);
             writeln!(s, "Definition cases : list {} := [", self.case_type).unwrap();
             for (i, c) in chunk.iter().enumerate() {
